@@ -247,8 +247,7 @@ func (h *JSONFormatterHook) PreFormat(entry *log.Entry) error {
 
 // PostFormat handler adds integrity to output
 func (h *JSONFormatterHook) PostFormat(entry *log.Entry, formatted *bytes.Buffer) error {
-	parsed := make(map[string]interface{})
-	err := json.Unmarshal(formatted.Bytes(), &parsed)
+	parsed, err := unmarshalLogEntry(formatted.Bytes())
 	if err != nil {
 		return err
 	}
